@@ -30,6 +30,36 @@ def fn_index(text):
     return out
 
 
+def fn_spans(text):
+    """[(first line, last line, qualified name)] of every fn of the generated file that is NOT nested inside another fn"""
+    from xtract import match_brace, mask_code
+    code = mask_code(text)
+    idx = fn_index(text)
+    lines_off = [0]
+    for m in re.finditer(r'\n', code):
+        lines_off.append(m.end())
+    out = []
+    for (line, name) in idx:
+        off = lines_off[line - 1]
+        ob = code.find('{', off)
+        semi = code.find(';', off)
+        if ob < 0 or (0 <= semi < ob and code[off:semi].count('(') == code[off:semi].count(')') and 'fn' in code[off:semi]):
+            end_line = code.count('\n', 0, semi if semi >= 0 else off) + 1
+        else:
+            try:
+                end_line = code.count('\n', 0, match_brace(code, ob)) + 1
+            except Exception:
+                end_line = line
+        out.append((line, end_line, name))
+    # drop nested fns: a fn whose span lies inside another fn's span
+    top = []
+    for (a, b, n) in out:
+        if any(a2 < a and b <= b2 for (a2, b2, n2) in out if (a2, b2, n2) != (a, b, n)):
+            continue
+        top.append((a, b, n))
+    return top
+
+
 def norm(fname):
     """semver_verus::m_x::foo -> foo ; semver_verus::BoundSet::new -> BoundSet::new"""
     parts = fname.split('::')
@@ -115,23 +145,39 @@ def table(res, gen_text, clauses):
                 e['time_ms'] += f.get('time', 0)
                 e['rlimit'] += f.get('rlimit', 0)
                 e['instances'] += 1
-    idx = fn_index(gen_text)
+    spans_idx = fn_spans(gen_text)
 
     def fn_at(line):
-        best = None
-        for (l, n) in idx:
-            if l <= line:
-                best = n
-            else:
-                break
-        return best
+        """the (outermost) function of the generated file whose text contains that line"""
+        for (a, b, n) in spans_idx:
+            if a <= line <= b:
+                return n
+        return None
+
+    def own_spans(d):
+        """all spans of a diagnostic that lie in the generated file, following macro expansions back to the call site
+        (`panic!`, `unreachable!`, `todo!`, `assert!` report a primary span inside core)"""
+        got = []
+
+        def walk(sp):
+            if not sp:
+                return
+            fnm = sp.get('file_name') or ''
+            if fnm.endswith('semver_verus.rs'):
+                got.append(sp)
+            ex = sp.get('expansion')
+            if ex and ex.get('span'):
+                walk(ex['span'])
+        for sp in d.get('spans', []):
+            walk(sp)
+        return got
     for d in res.get('diags', []):
         if d.get('level') != 'error':
             continue
         msg = d.get('message', '')
         if msg.startswith('aborting due to'):
             continue
-        spans = d.get('spans', [])
+        spans = own_spans(d)
         lines = [(s.get('line_start'), s.get('label')) for s in spans]
         kind = 'other'
         clause = None
@@ -156,6 +202,8 @@ def table(res, gen_text, clauses):
                 fline = s.get('line_start')
                 if 'at the end' in lab or 'at this exit' in lab:
                     break
+        if fline is None and spans:
+            fline = spans[-1].get('line_start')     # (the call site of an expanded macro comes last)
         fn = fn_at(fline) if fline else None
         out['errors'].append({'fn': fn, 'kind': kind, 'clause': clause, 'message': msg, 'lines': lines})
     return out
